@@ -499,12 +499,13 @@ def _type_check_field_existence_condition(field, source_file_name, errors):
 
 
 def _type_name_for_error_messages(expression_type):
+    expression_type = ir_data_utils.reader(expression_type)
     if expression_type.which_type == "integer":
         return "integer"
     elif expression_type.which_type == "enumeration":
         # TODO(bolms): Should this be the fully-qualified name?
         return expression_type.enumeration.name.canonical_name.object_path[-1]
-    assert False, "Shouldn't be here."
+    return expression_type.which_type or "unknown"
 
 
 def _type_check_passed_parameters(atomic_type, ir, source_file_name, errors):
@@ -543,7 +544,7 @@ def _type_check_passed_parameters(atomic_type, ir, source_file_name, errors):
             # usage sites.
             continue
         if (
-            atomic_type.runtime_parameter[i].type.which_type
+            ir_data_utils.reader(atomic_type.runtime_parameter[i]).type.which_type
             != referenced_type.runtime_parameter[i].type.which_type
         ):
             errors.append(
